@@ -4,6 +4,7 @@ import (
 	"bytes"
 	"crypto/sha256"
 	"fmt"
+	"github.com/ontio/ontology/common"
 	"sort"
 
 	scommon "github.com/ontio/ontology/core/store/common"
@@ -22,7 +23,7 @@ func init() {
 	simkit.Register(&simkit.Prop{
 		ID:   "C03",
 		Desc: "block change hash and write set depend only on final key/value content, not on operation history",
-		Rule: "a run = 1..4 rounds (blocks) over one real LevelDB pre-populated with some of the keys; per round a key universe of 1..24 keys (length 0..40, shared prefixes, empty key) and a random history A of put/delete/put-empty/same-value-overwrite ops; history B = A's per-key subsequences optionally dropped down to the final op, padded with noise (overwrites, same-value overwrites, delete-then-recreate, empty values, gets) and re-interleaved by the tape; history C = A through a transaction cache with tape-chosen commit splits and aborted (reset) transactions; each history is applied to its own OverlayDB (directly, or via CacheDB.Commit per op, or via commit splits). Oracle: ChangeHash and the ForEach sequence are equal for all copies and equal to sha256 / the list computed independently from the model's sorted (key, final value) list with deletions as empty values. Non-trivial = at least 2 touched keys and at least one key written more than once; distinct = distinct event-trace hash",
+		Rule: "a run = 1..4 rounds (blocks) over one real LevelDB pre-populated with some of the keys; per round a key universe of 1..24 keys (length 0..40, shared prefixes, empty key) and a random history A of put/delete/put-empty/same-value-overwrite ops; history B = A's per-key subsequences optionally dropped down to the final op, padded with noise (overwrites, same-value overwrites, delete-then-recreate, empty values, gets) and re-interleaved by the tape; history C = A through a transaction cache with tape-chosen commit splits and aborted (reset) transactions; each history is applied to its own OverlayDB (directly, or via CacheDB.Commit per op, or via commit splits). Oracle: ChangeHash and the ForEach sequence are equal for all copies and equal to sha256 / the list computed independently from the model's sorted (key, final value) list with deletions as empty values. About one run in 40 (thorough: 12) starts with a bulk block - a hot key of about a kilobyte rewritten 60..100 times with a growing value among small keys, or 14000..17000 distinct keys - written in one order and, final values only, in the opposite order: same oracle. Non-trivial = at least 2 touched keys and at least one key written more than once; distinct = distinct event-trace hash",
 		Real: []string{"core/store/overlaydb (OverlayDB, MemDB skip list, ChangeHash, ForEach)", "smartcontract/storage CacheDB (Put/Delete/Get/Commit/Reset)", "core/store/leveldbstore + goleveldb (in-memory storage)"},
 		Stub: []string{"no ledger: the harness plays the executor that writes into the cache/overlay"},
 		Assumptions: []string{
@@ -114,6 +115,9 @@ func runC03(c *simkit.Ctx) {
 		t := c.Tape
 		store := leveldbstore.NewMemLevelDBStore()
 		c.Defer(func() { store.Close() })
+		if den := map[string]int{"quick": 40, "thorough": 12}[c.Tier]; den > 0 && t.Prob(1, den) {
+			c03Bulk(c, t, store)
+		}
 		rounds := t.Range(1, 4)
 		nontrivial := false
 		for r := 0; r < rounds; r++ {
@@ -412,4 +416,118 @@ func c03Round(c *simkit.Ctx, t *simkit.Tape, store *leveldbstore.LevelDBStore, r
 		}
 	}
 	return len(touched) >= 2 && multi
+}
+
+// c03Bulk: one block far larger than the ordinary rounds, so that the write
+// buffer of the overlay's MemDB grows, is reallocated and holds mostly dead
+// bytes: either one hot key rewritten 60..100 times with a growing value of
+// about a kilobyte among a few small keys, or 14000..17000 distinct keys.
+// History A writes in one order, history B writes only the final values in
+// another; hash and write set must equal each other and the sorted content.
+func c03Bulk(c *simkit.Ctx, t *simkit.Tape, store *leveldbstore.LevelDBStore) {
+	type kv struct{ k, v []byte }
+	final := map[string][]byte{}
+	var histA []kv
+	put := func(k, v []byte) {
+		histA = append(histA, kv{k, v})
+		final[string(k)] = v
+	}
+	mode := "hot-key"
+	if t.Bool() {
+		mode = "many-keys"
+	}
+	if mode == "hot-key" {
+		hot := c03Raw([]byte("hot"))
+		n := 60 + t.Choose(41)
+		size := 800 + t.Choose(400)
+		small := 3 + t.Choose(8)
+		for i := 0; i < n; i++ {
+			v := bytes.Repeat([]byte{byte('a' + i%26)}, size+4*i)
+			put(hot, v)
+			if t.Prob(1, 3) {
+				k := c03Raw([]byte(fmt.Sprintf("acct%02d", t.Choose(small))))
+				if t.Prob(1, 5) {
+					put(k, []byte{})
+				} else {
+					put(k, c03Val(t))
+				}
+			}
+		}
+	} else {
+		n := 14000 + t.Choose(3001)
+		x := uint32(t.Choose(1 << 20))
+		for i := 0; i < n; i++ {
+			k := c03Raw([]byte{byte(i >> 16), byte(i >> 8), byte(i), 0x5a})
+			x = x*1664525 + 1013904223
+			if x%11 == 0 {
+				put(k, []byte{})
+			} else {
+				put(k, []byte{byte(x >> 24), byte(x >> 16), byte(i)})
+			}
+		}
+	}
+	keys := make([]string, 0, len(final))
+	for k := range final {
+		keys = append(keys, k)
+	}
+	sort.Strings(keys)
+	hasher := sha256.New()
+	for _, k := range keys {
+		hasher.Write([]byte(k))
+		hasher.Write(final[k])
+	}
+	var want common.Uint256
+	hasher.Sum(want[:0])
+	ovA := overlaydb.NewOverlayDB(store)
+	for _, op := range histA {
+		if len(op.v) == 0 {
+			ovA.Delete(op.k)
+		} else {
+			ovA.Put(op.k, op.v)
+		}
+	}
+	ovB := overlaydb.NewOverlayDB(store)
+	for i := len(keys) - 1; i >= 0; i-- { // final values only, descending key order
+		k := []byte(keys[i])
+		if v := final[keys[i]]; len(v) == 0 {
+			ovB.Delete(k)
+		} else {
+			ovB.Put(k, v)
+		}
+	}
+	c.Probe("c03_bulk_" + mode)
+	c.Logf("bulk block (%s): %d writes, %d distinct keys", mode, len(histA), len(keys))
+	for name, ov := range map[string]*overlaydb.OverlayDB{"A": ovA, "B": ovB} {
+		if err := ov.Error(); err != nil {
+			c.Fail("overlay-error", "bulk/"+mode, "history %s: %v", name, err)
+		}
+	}
+	check := func(name string, ov *overlaydb.OverlayDB) {
+		i := 0
+		bad := ""
+		ov.GetWriteSet().ForEach(func(k, v []byte) {
+			if bad == "" {
+				switch {
+				case i >= len(keys):
+					bad = fmt.Sprintf("entry %d (key %x) beyond the %d keys written", i, k, len(keys))
+				case string(k) != keys[i]:
+					bad = fmt.Sprintf("entry %d is key %x, want key %x", i, k, keys[i])
+				case !bytes.Equal(v, final[keys[i]]):
+					bad = fmt.Sprintf("entry %d key %x: value of %d bytes (%x...), the last write was %d bytes (%x...)", i, k, len(v), head(v, 8), len(final[keys[i]]), head(final[keys[i]], 8))
+				}
+			}
+			i++
+		})
+		if bad == "" && i != len(keys) {
+			bad = fmt.Sprintf("write set has %d entries, %d keys were written", i, len(keys))
+		}
+		if bad != "" {
+			c.Fail("writeset-not-final-content", "bulk/"+mode, "bulk block, history %s: %s", name, bad)
+		}
+		if h := ov.ChangeHash(); h != want {
+			c.Fail("change-hash-not-content-hash", "bulk/"+mode, "bulk block, history %s: ChangeHash %x, sha256 over the sorted final content %x", name, h, want)
+		}
+	}
+	check("A", ovA)
+	check("B", ovB)
 }
